@@ -216,17 +216,20 @@ func (u *UserHash) writeHashStr(password string, isAdmin bool, mayCreate bool) e
 		return err
 	}
 
+	// Open the directory before the move: once the new file is in place
+	// nothing but the final flush itself may fail anymore
+	dir, err := os.Open(filepath.Dir(file.Name()))
+	if err != nil {
+		return err
+	}
+	defer dir.Close() //nolint:errcheck
+
 	// Atomically move the new file in place
 	if err := os.Rename(tmp.Name(), file.Name()); err != nil {
 		return err
 	}
 
 	// Flush the move to disk
-	dir, err := os.Open(filepath.Dir(file.Name()))
-	if err != nil {
-		return err
-	}
-	defer dir.Close() //nolint:errcheck
 	return dir.Sync()
 }
 
